@@ -13,7 +13,6 @@ walked between two steps. Scripts are generated step by step from the observed r
 most operations hit existing objects); the script actually executed is recorded and handed to the
 model afterwards (and stored in the replay file).
 """
-import json
 import os
 import random
 import shutil
@@ -157,10 +156,6 @@ def parse_answer(r):
 
 
 # ------------------------------------------------------------------ rendering
-
-def hexs(b):
-    return b.hex()
-
 
 def hexstr(s):
     return s.encode("utf-8", "surrogateescape").hex()
@@ -836,10 +831,6 @@ def model_lines(case, rec):
     init = " ".join(("D:%s" % hexstr(p)) if k == "D" else ("F:%s:%s" % (hexstr(p), b or "-")) for k, p, b in case["init"])
     cwd = hexstr("/".join(case["cwd"])) if case["cwd"] else "-"
     return ["RUN\t%s.%s\t%s\t%s\t%s\t%s" % (case["id"], m, m, cwd, init or "-", " ".join(toks) or "-") for m in ("fixed", "pinned")]
-
-
-def norm_tree_model(t):
-    return t
 
 
 STEP_CLASS = {"fe": "file_exists", "de": "directory_exists", "fs": "file_size", "df": "directory_files",
